@@ -805,12 +805,20 @@ Definition allowed_cells (c : config QS) (x x' : input QS) (o o' : list (mat (X 
   | _ => diff_cells o o'
   end.
 
-Definition check_enc (c : config QS) (x : input QS) (raised : bool) (zeros : mat bool)
+(* zero patterns: equal when the implementation's parameters are generic (seeded noise on every
+   parameter); with reset_parameters() alone the library's biases are exactly zero, so a cell at its
+   column mean is a zero vector there but not in the model's generic parameters: then only
+   "zero in the model => zero in the implementation" (NaN absorption, padding rows) is compared *)
+Definition zeros_ok (strict : bool) (zm zi : mat bool) : bool :=
+  if strict then bmat_eqb zm zi
+  else list_eqb (list_eqb (fun a b => implb a b)) zm zi.
+
+Definition check_enc (strict : bool) (c : config QS) (x : input QS) (raised : bool) (zeros : mat bool)
            (perts : list (input QS * list (nat * nat))) (imputed : option (input QS)) : bool :=
   match pre_post QS c x with
   | None => raised
   | Some o =>
-      negb raised && bmat_eqb (zero_pattern o) zeros &&
+      negb raised && zeros_ok strict (zero_pattern o) zeros &&
       forallb (fun p => match pre_post QS c (fst p) with
                         | Some o' => subset_cells (snd p) (allowed_cells c x (fst p) o o')
                         | None => false
@@ -857,29 +865,45 @@ Definition check_emb (dims : list nat) (width : nat) : bool :=
   (sum dims =? width) && list_eqb Nat.eqb (map (fun p => snd p - fst p) (emb_walk 0 dims)) dims.
 
 (* lazily configured module: after the constructor and after every assignment:
-   (is_fully_specified, a guarded use succeeds, the snapshots init_modules saw) *)
-Definition lazy_obs (s : mstate nat) : bool * bool * list (list (String.string * option nat)) :=
+   ((is_fully_specified, the validate() guard lets a use through, the statement raised),
+    the configurations init_modules was called with).  init_modules of the probe raises iff
+    some constructor parameter holds the designated bad value. *)
+Definition probe_init_ok (bad : option nat) (snap : list (String.string * option nat)) : bool :=
+  match bad with
+  | None => true
+  | Some b => negb (existsb (fun kv => opt_eqb Nat.eqb (snd kv) (Some b)) snap)
+  end.
+Definition lazy_obs (o : outcome nat) : bool * bool * bool * list (list (String.string * option nat)) :=
+  let s := state_of o in
   (match missing s with [] => true | _ => false end,
-   match use nat s with Some _ => true | None => false end, fired s).
-Fixpoint lazy_trace_from (params : list String.string) (s : mstate nat) (ops : list (String.string * option nat))
-  : list (bool * bool * list (list (String.string * option nat))) :=
+   match use nat s with Some _ => true | None => false end, is_raised o, fired s).
+Fixpoint lazy_trace_from (params : list String.string) (bad : option nat) (s : mstate nat)
+         (ops : list (String.string * option nat)) :=
   match ops with
   | [] => []
   | (k, v) :: r =>
-      match setattr nat params s k v with
-      | Some s' => lazy_obs s' :: lazy_trace_from params s' r
-      | None => []
-      end
+      let o := setattr nat params (probe_init_ok bad) s k v in
+      lazy_obs o :: lazy_trace_from params bad (state_of o) r
   end.
-Definition lazy_trace (params lazy : list String.string) (args : list (option nat))
+(* a constructor that raises leaves no object to assign to *)
+Definition lazy_trace (params lazy : list String.string) (bad : option nat) (args : list (option nat))
            (ops : list (String.string * option nat)) :=
-  match construct nat params lazy args with
-  | Some s0 => lazy_obs s0 :: lazy_trace_from params s0 ops
-  | None => []
-  end.
+  let o := construct nat params lazy (probe_init_ok bad) args in
+  lazy_obs o :: (if is_raised o then [] else lazy_trace_from params bad (state_of o) ops).
 Definition lazy_trace_eqb :=
-  list_eqb (pair_eqb (pair_eqb Bool.eqb Bool.eqb)
+  list_eqb (pair_eqb (pair_eqb (pair_eqb Bool.eqb Bool.eqb) Bool.eqb)
                      (list_eqb (list_eqb (pair_eqb String.eqb (opt_eqb Nat.eqb))))).
+(* for a real encoder a use succeeds iff the guard passes and init_modules completed;
+   observed: (fully specified, a call works, the statement raised, number of init_modules calls) *)
+Definition lazy_enc_obs (bad : option nat) (t : bool * bool * bool * list (list (String.string * option nat)))
+  : bool * bool * bool * nat :=
+  match t with
+  | (full, guard, raised, calls) =>
+      (full, guard && negb (match filter (probe_init_ok bad) calls with [] => true | _ => false end), raised,
+       List.length calls)
+  end.
+Definition lazy_enc_trace_eqb :=
+  list_eqb (pair_eqb (pair_eqb (pair_eqb Bool.eqb Bool.eqb) Bool.eqb) Nat.eqb).
 
 (* StypeWiseFeatureEncoder.__init__ over the generated supported_stypes *)
 Definition check_init (keys : list stype) (d : list (stype * encoder_class)) (raised : bool) (wired : list stype)
@@ -903,3 +927,70 @@ Definition check_cat_rows (ncats : list nat) (cells : mat Z) (classes : list nat
   let stats := map (fun n => qcs XNaN XNaN [] n 0%Z [] [] [] 0) ncats in
   let off := emb_offset QS stats in
   list_eqb Nat.eqb (classes_of Z.eqb (concat (map (fun row => zipWith emb_index row off) cells))) classes.
+
+(* --------------------------------------------------------------------------
+   END TO END (C12 domain contract): a feature matrix as the C01 mapper model produces it,
+   column by column, with the statistics the C03 model computes from the same column. *)
+Require PF.Model.Mapper PF.Model.MapperSpec PF.Model.Stats.
+
+(* the integer entries of an encoded cell tf[i, j] *)
+Definition ecell_ints (e : Mapper.ecell) : list Z :=
+  flat_map (fun s => match s with Mapper.SInt z => [z] | Mapper.SNum _ => [] end) e.
+Definition ecell_int (e : Mapper.ecell) : Z := hd (-1)%Z (ecell_ints e).
+
+(* n-row columns side by side (torch.cat of n x 1 tensors / column-wise container cat) *)
+Definition frame_of_columns {A} (n : nat) (cols : list (list A)) : option (mat A) := stack1 n cols.
+
+(* statistics records carrying only what one encoder reads *)
+Definition ncat_stats (S : Scalar) (n : nat) : colstats S :=
+  Build_colstats S XNaN XNaN [] n 0%Z [] [] [] 0.
+Definition time_colstats (S : Scalar) (t : Stats.time_stats) : colstats S :=
+  Build_colstats S XNaN XNaN [] 0 (hd 0%Z (Stats.t_year_range t)) (Stats.t_oldest t) (Stats.t_newest t)
+                 (Stats.t_median t) 0.
+
+(* COUNT / MULTI_COUNT as C03 specifies value_counts: the category list `cats` is, under an
+   injective naming of the values by integers, the key list of a valid count table of the
+   column's non-missing values (C03 abstracts category values as integers) *)
+Definition counted_categories (cats : list Mapper.pval) : Prop :=
+  exists (code : Mapper.pval -> Z) (o : list (Z * nat)) (col : list Z),
+    (forall a b, In a cats -> In b cats -> code a = code b -> a = b) /\
+    map code cats = map fst o /\ Stats.valid_count_order o col = true.
+
+(* a timestamp column: parsed instants (epoch seconds; None = NaT) as the statistics see them *)
+Definition time_stat_cells (col : list (option Z)) : list (option (Z * list Z)) :=
+  map (option_map (fun s => (s, calendar_cell s))) col.
+
+(* the feature matrix columns and the per-column statistics records of the end-to-end theorems *)
+Definition cat_columns {L : Type} (cols : list (list Mapper.pval * @Mapper.series L (option Mapper.pval)))
+  : list (list Z) := map (fun p => map ecell_int (Mapper.categorical_encode (fst p) (snd p))) cols.
+Definition cat_col_stats (S : Scalar) {L : Type}
+           (cols : list (list Mapper.pval * @Mapper.series L (option Mapper.pval))) : list (colstats S) :=
+  map (fun p => ncat_stats S (length (fst p))) cols.
+(* a multicategorical column: category list (a count statistic, never containing the mapper's
+   own missing marker -1), separator, cells whose tokens are not that marker *)
+Definition mc_ok {L : Type} (p : list Mapper.pval * option Mapper.str * @Mapper.series L Mapper.mc_cell) : Prop :=
+  counted_categories (fst (fst p)) /\ ~ In (Mapper.VInt (-1)) (fst (fst p)) /\
+  Forall (MapperSpec.tokens_ok (snd (fst p))) (Mapper.ser_values (snd p)).
+Definition mc_stats (S : Scalar) {L : Type}
+           (cols : list (list Mapper.pval * option Mapper.str * @Mapper.series L Mapper.mc_cell)) : list (colstats S) :=
+  map (fun p => ncat_stats S (length (fst (fst p)))) cols.
+
+(* --------------------------------------------------------------------------
+   C13, numeric agreement for the affine encoders: the model evaluated on the module's REAL
+   parameters and statistics (float64 values as exact rationals) against the implementation's
+   output before the post-module, entry by entry within 1e-9 (relative to 1 + |a| + |b|). *)
+Fixpoint list_all2 {A B} (r : A -> B -> bool) (a : list A) (b : list B) : bool :=
+  match a, b with
+  | [], [] => true
+  | x :: a', y :: b' => r x y && list_all2 r a' b'
+  | _, _ => false
+  end.
+Definition qabs (a : Q) : Q := if Qle_bool 0 a then a else Qopp a.
+Definition q_close (a b : Q) : bool :=
+  Qle_bool (qabs (a - b)%Q) ((1 # 1000000000) * (1 + qabs a + qabs b))%Q.
+Definition x_close (a : X Q) (b : Q) : bool := match a with XFin q => q_close q b | XNaN => false end.
+Definition check_num (c : config QS) (x : input QS) (obs : list (mat Q)) : bool :=
+  match pre_post QS c x with
+  | Some o => list_all2 (list_all2 (list_all2 x_close)) o obs
+  | None => false
+  end.
